@@ -32,3 +32,22 @@ Proof. exact wrap_reissues. Qed.
 
 Check C08_created_handle_fresh : forall s iss h x, Inv s -> Hist s iss -> head s = Free h -> slots s !! h = Some x ->
   sidx_is_free (s_idx x) = true -> h < cap s -> created_handle s h x ∉ iss.
+
+(* ---------------------------------------------------------------- whole histories *)
+From Gecs Require Import Query World Borrow Run WorldInv LoopFacts HistRun.
+
+(** For every history of the run language without generation wraparound: a create in archetype [a]
+    of world [i] never returns a handle that was stored there at any earlier point. *)
+Theorem C08_no_handle_twice : forall cfg d qs ops1 ops2 st1 st2 i a w1 w2 s1 s2 e vs s3 h,
+  hist_case cfg d qs (ops1 ++ ops2) = true ->
+  run_to cfg d qs rs0 ops1 = Some st1 -> run_to cfg d qs st1 ops2 = Some st2 ->
+  worlds st1 !! i = Some (Some w1) -> worlds st2 !! i = Some (Some w2) -> w1 !! a = Some s1 -> w2 !! a = Some s2 ->
+  e ∈ ents s1 -> length vs = length (cols s2) -> push cfg s2 vs = Ok s3 h -> h <> e.
+Proof. exact run_create_fresh. Qed.
+
+(** The ghost history behind it: the issued handles of a storage are pairwise distinct, the removed
+    ones are stored nowhere, and every issued handle is either removed or stored. *)
+Theorem C08_ghost_history_exists : forall cfg s, wrapping cfg = false -> sreach cfg s ->
+  Inv s /\ exists iss dead, Hist2 s iss dead.
+Proof. exact sreach_hist2. Qed.
+Check (h2_nodup : forall s iss dead, Hist2 s iss dead -> NoDup iss).
